@@ -14,7 +14,17 @@ op  = ["bind", m, prefix|None, ns, override, replace]   Graph.bind / NamespaceMa
       ["parsexml", m, [[prefix|None, ns]…]]  RDF/XML document with xmlns attributes
       ["ser", m, s, p, o]                serialize(format="turtle") of a graph holding that triple
       ["split", iri, strict]             rdflib.namespace.split_uri(iri[, NAME_START_CATEGORIES]) (stateless)
-      ["serdoc", m, fmt, [[s, p, o, kind]…]]  serialize(format=turtle|n3) of a fresh graph (same store, same
+      ["ncname", text]                   rdflib.namespace.is_ncname(text) (stateless)
+      ["catrange", lo, hi]               unicodedata.category of every code point lo ≤ c < hi, run-length encoded
+                                         (stateless; the 272 blocks of 4096 code points are walked round-robin by case index)
+      ["badinit", mode]                  Graph(store, bind_namespaces="cc" | anything unknown).namespace_manager raises, binds nothing
+      ["sertrig", 1, [[kind, graph IRI, [[s, p, o, kind]…]]…]]  serialize(format="trig") of a Dataset whose named graphs
+                                         (kind "g") go through manager 0 and whose default graph (kind "d") through manager 1;
+                                         one document, one @prefix table; both managers are reset() afterwards
+      ["serxml", m, [[s, p, o, kind]…]]  serialize(format="xml") of a fresh graph (same store, same manager): compute_qname_strict
+                                         (generate) for every predicate, then qname_strict per statement; the OUTPUT is checked (xmlns
+                                         table, re-parse) and its xmlns table compared with the model's; no reset afterwards
+      ["serdoc", m, fmt, [[s, p, o, kind]…]]  serialize(format=turtle|n3|longturtle|longturtle-canon|trig) of a fresh graph (same store, same
                                          manager) holding these triples (kind "u" IRI / "l" plain literal); the
                                          OUTPUT is checked (prefix table, re-parse) and its @prefix table is
                                          compared with the model's; the manager is reset() afterwards
@@ -26,11 +36,13 @@ Property oracle (independent of Lean): the three clauses evaluated on the implem
 import io
 import logging
 import re
+import unicodedata
 import warnings
 
 import core  # noqa: F401
 import c17_tables
 from rdflib import Dataset, Graph, Literal, Namespace, URIRef
+from rdflib.graph import DATASET_DEFAULT_GRAPH_ID
 from rdflib.namespace import NamespaceManager
 from rdflib.plugins.stores.memory import Memory, SimpleMemory
 import rdflib.namespace as _N
@@ -46,12 +58,15 @@ CASES = {"quick": 2500, "thorough": 60000, "search": 12000}
 TABLES = c17_tables.tables_text
 RULE = ("random histories (3-18 ops) of bind (override x replace, None/empty/underscore/numbered prefixes, nested and "
         "overlapping namespaces), direct store.bind, qname/curie/compute_qname(_strict)/n3/expand_curie, reset, Turtle and "
-        "RDF/XML parses that bind prefixes, Turtle/N3 serialisation that generates them (output re-parsed, @prefix table "
-        "checked, `_x` vs `p_x` collisions generated); Memory, SimpleMemory and Dataset; one "
+        "RDF/XML parses that bind prefixes, Turtle/N3/longturtle(canon)/TriG serialisation that generates them and RDF/XML "
+        "serialisation (strict qnames) (output re-parsed, @prefix / xmlns table checked, `_x` vs `p_x` collisions generated), TriG "
+        "of a dataset whose graphs go through two managers, refused bind_namespaces modes, stateless split_uri / is_ncname probes "
+        "over all of Unicode and block-wise comparison of the whole category table; Memory, SimpleMemory and Dataset; one "
         "or two managers on the store, and graphs that borrow the manager of a graph on another store (constructor argument "
         "or setter); bind_namespaces none/core/rdflib.  non-trivial = some bind met an already bound "
         "prefix or namespace and a later qname-family call returned a prefixed name; distinct = distinct histories")
-ASSUMPTIONS = ["unicodedata.category as tabulated in Tables.lean (ASCII + 13 probes; generators draw only from these)",
+ASSUMPTIONS = ["unicodedata.category of the running Python = Tables.lean (regenerated for all of Unicode on every run; the "
+               "compiled lookup is compared with unicodedata on every code point, block by block, in every run)",
                "IRIs are Python str without lone surrogates",
                "stores other than Memory/SimpleMemory (SPARQLStore, BerkeleyDB) are outside the model"]
 TRUSTED = ["harness/c17.py generators, canonicalisation (generated prefixes renamed by the namespace they are bound to)",
@@ -76,6 +91,7 @@ STRICT_HEAD = {"1a": "1", "٣x": "٣", "%20x": "%20"}
 PREFIX_POOL = ["a", "b", "c", "_a", "_b", "", "ns1", "ns2", "a1", "b1", "default1", "é", "x.y", "A", "default", "_a1",
                "p_a", "p_b", "pp_a", "_", "_", "__", "_1"]
 DOC_LOCALS = ["x", "y1", "b", "s", "o2", "q", "y.", "x"]
+XML_LOCALS = DOC_LOCALS + ["1a", "٣x", "x-1", "_z", "é", "a.b", "-d", "1", "x"]  # predicates of RDF/XML documents (strict split)
 SPECIAL_IRIS = [XMLNS + "a" + XMLNS + "b", "http://e.org/a b", "http://e.org/<x>", "", "/ab/-", "abc", XMLNS, XMLNS + "lang",
                 "http://e.org/a/b/c", "http://e.org/", "urn:x:y:z"]
 
@@ -97,9 +113,52 @@ _SP_INNER = [".", "-", "%", "·", "(", ")", "́", "ʰ", "ः"]
 _SP_BREAK = ["/", "#", ":", "€", "?", "=", "~", "@"]
 
 
+_RUNS = c17_tables.category_runs() + [(c17_tables.LIMIT, None)]
+# runs a generated character may come from: no controls / line separators (line protocol), no surrogates (ASSUMPTIONS)
+_UNI_RUNS = [(a, _RUNS[i + 1][0]) for i, (a, k) in enumerate(_RUNS[:-1]) if k not in ("Cc", "Cs", "Zl", "Zp")]
+_STATELESS = ("sbind", "expand", "split", "ncname", "catrange", "badinit")
+DOC_FORMATS = ["turtle", "turtle", "n3", "longturtle", "longturtle-canon", "trig"]
+CAT_BLOCK = 4096
+CAT_BLOCKS = c17_tables.LIMIT // CAT_BLOCK
+
+
+def uni_char(rng):
+    """a character from anywhere in Unicode: a random run of one general category (so that every category, however
+    few code points it has, is drawn often), then a random code point of the run"""
+    while True:
+        a, b = rng.choice(_UNI_RUNS)
+        c = chr(rng.randrange(a, b))
+        if c not in ' |>\x85':
+            return c
+
+
+def uni_local(rng):
+    """a local name with characters from anywhere in Unicode, mostly name characters"""
+    out = []
+    for _ in range(rng.randint(1, 4)):
+        r = rng.random()
+        out.append(uni_char(rng) if r < 0.6 else rng.choice(_SP_START + _SP_DIGIT + _SP_INNER))
+    return "".join(out)
+
+
+def gen_ncname_probe(rng):
+    r = rng.random()
+    if r < 0.1:
+        return rng.choice(["", "_", "a", "1", "-", "a:b", "a b", "·a", "a·"])
+    first = _w(rng, [(rng.choice(_SP_START), 5), (uni_char(rng), 4), (rng.choice(_SP_DIGIT + _SP_INNER + _SP_BREAK), 2)])
+    rest = "".join(_w(rng, [(rng.choice(_SP_START + _SP_DIGIT + _SP_INNER), 6), (uni_char(rng), 4), (rng.choice(_SP_BREAK), 1)])
+                   for _ in range(rng.randint(0, 4)))
+    return first + rest
+
+
 def gen_split_iri(rng):
     r = rng.random()
-    if r < 0.08:
+    if r < 0.3:  # characters from anywhere in Unicode around the split point
+        head = rng.choice(["", "http://e.org/", "urn:x:", "/", "a"])
+        body = "".join(_w(rng, [(uni_char(rng), 5), (rng.choice(_SP_START + _SP_DIGIT + _SP_INNER), 3), (rng.choice(_SP_BREAK), 2)])
+                       for _ in range(rng.randint(1, 6)))
+        return head + body
+    if r < 0.38:
         return XMLNS + "".join(rng.choice(_SP_START + _SP_BREAK + _SP_INNER) for _ in range(rng.randint(0, 3)))
     head = rng.choice(["", "", "http://e.org/", "urn:x:", "/", "a", "1", "-", "é/"])
     mid = "".join(rng.choice(_SP_START + _SP_DIGIT + _SP_INNER + _SP_BREAK) for _ in range(rng.randint(0, 4)))
@@ -121,8 +180,22 @@ def _doc_triples(rng, nss, counter, n):
         if rng.random() < 0.3:
             ts.append([s_, p_, "lit " + str(counter[0]), "l"])
         else:
-            ts.append([s_, p_, rng.choice(nss) + rng.choice(DOC_LOCALS), "u"])
+            # sometimes the object is a namespace IRI itself: compute_qname raises for it unless it is bound to a
+            # non-empty prefix; getQName then falls back to store.prefix(uri) of the graph's own store
+            ts.append([s_, p_, rng.choice(nss) + (rng.choice(DOC_LOCALS) if rng.random() < 0.75 else ""), "u"])
     return ts
+
+
+def _trig_contexts(rng, nss, counter):
+    """contexts of one TriG document: the default graph and/or one or two named graphs (names in the case's
+    namespaces, so that a graph name can use a prefix), 1-3 triples each"""
+    kinds = rng.choice([["d", "g"], ["g", "d"], ["g", "g", "d"], ["g"], ["d"], ["g", "g"]])
+    out = []
+    for kd in kinds:
+        counter[0] += 1
+        iri = "" if kd == "d" else rng.choice(nss) + "g" + str(counter[0])
+        out.append([kd, iri, _doc_triples(rng, nss, counter, rng.randint(1, 3))])
+    return out
 
 
 def _foreign_fields(rng):
@@ -146,8 +219,10 @@ def gen_collision_case(rng):
     ops, counter = list(binds), [0]
     for _ in range(rng.randint(1, 3)):
         r = rng.random()
-        if r < 0.75:
-            ops.append(["serdoc", 0, rng.choice(["turtle", "turtle", "n3"]), _doc_triples(rng, vn, counter, rng.randint(2, 4))])
+        if r < 0.15:
+            ops.append(["sertrig", 1, _trig_contexts(rng, vn, counter)])
+        elif r < 0.75:
+            ops.append(["serdoc", 0, rng.choice(DOC_FORMATS), _doc_triples(rng, vn, counter, rng.randint(2, 4))])
         elif r < 0.9:
             ops.append(["qname", 0, rng.choice(vn) + "x"])
         else:
@@ -160,6 +235,14 @@ def gen_collision_case(rng):
 
 
 def gen_case(rng, tier, i):
+    case = _gen_case(rng, tier, i)
+    if i % 4 == 0:  # the category table itself: all 272 blocks are compared at least twice per quick run
+        b = (i // 4) % CAT_BLOCKS
+        case["ops"].insert(rng.randint(0, len(case["ops"])), ["catrange", b * CAT_BLOCK, (b + 1) * CAT_BLOCK])
+    return case
+
+
+def _gen_case(rng, tier, i):
     if rng.random() < 0.12:
         return gen_collision_case(rng)
     cfg = _w(rng, [("memory", 4), ("simple", 3), ("dataset", 3), ("foreign", 2)])
@@ -178,7 +261,7 @@ def gen_case(rng, tier, i):
     iris = []
     for n in list(vn):
         for _ in range(rng.randint(1, 3)):
-            loc = rng.choice(LOCALS)
+            loc = rng.choice(LOCALS) if rng.random() < 0.8 else uni_local(rng)
             iris.append(n + loc)
             # locals that are not NCNames: compute_qname_strict splits later; make that namespace bindable too
             if n and loc in STRICT_HEAD and rng.random() < 0.7:
@@ -211,7 +294,7 @@ def gen_case(rng, tier, i):
             ops.append(list(rng.choice(qs)))  # ask again later: (q, bind, q) interleavings
             continue
         kind = _w(rng, [("bind", 38), ("sbind", 3), ("qname", 12), ("cq", 9), ("cqs", 5), ("qstrict", 3), ("curie", 7),
-                        ("n3", 6), ("expand", 4), ("reset", 3), ("parse", 4), ("parsexml", 2), ("ser", 3), ("serdoc", 3), ("split", 7)])
+                        ("n3", 6), ("expand", 4), ("reset", 3), ("parse", 4), ("parsexml", 2), ("ser", 3), ("serdoc", 4), ("sertrig", 2), ("serxml", 3), ("split", 7), ("ncname", 2), ("badinit", 1)])
         if kind == "bind":
             ov, rp = _w(rng, [((True, False), 5), ((False, False), 2), ((True, True), 2), ((False, True), 2)])
             ops.append(["bind", mgr(), pre(), rng.choice(vn), ov, rp])
@@ -245,8 +328,34 @@ def gen_case(rng, tier, i):
             ops.append(["ser", mgr(), rng.choice(valid), rng.choice(valid), rng.choice(valid)])
         elif kind == "split":
             ops.append(["split", gen_split_iri(rng) if rng.random() < 0.8 else rng.choice(iris), rng.random() < 0.35])
+        elif kind == "ncname":
+            ops.append(["ncname", gen_ncname_probe(rng)])
+        elif kind == "badinit":
+            ops.append(["badinit", rng.choice(["cc", "cc", "bogus", "RDFLIB", ""])])
+        elif kind == "sertrig":
+            ops.append(["sertrig", 1, _trig_contexts(rng, absns, counter)])
+        elif kind == "serxml":
+            # `%`, `(`, `)` are name characters for rdflib's is_ncname but not for XML: an element name with them is
+            # not well-formed XML — a syntax defect of the RDF/XML writer, outside this property (see design.d/C17.md)
+            xns = [n for n in absns if not any(c in n for c in "%()")] or ["http://e.org/"]
+            ts = _doc_triples(rng, absns, counter, rng.randint(1, 4))
+            bad = []
+            for t in ts:
+                loc = rng.choice(XML_LOCALS)
+                t[1] = rng.choice(xns) + loc
+                if loc == "1":
+                    bad.append(t)
+            if bad:
+                # a predicate the strict split refuses makes serialize() raise; which prefixes were generated before
+                # that depends on the iteration order of a *set* of predicates — keep such a predicate alone
+                ts = bad[:1]
+            m_ = mgr()
+            if rng.random() < 0.15:  # the prefix `rdf` bound to a namespace of the document: the writer must refuse (AssertionError)
+                ops.append(["bind", m_, "rdf", xns[0], True, True])
+                ts[0][1] = xns[0] + rng.choice(DOC_LOCALS)
+            ops.append(["serxml", m_, ts])
         elif kind == "serdoc":
-            ops.append(["serdoc", mgr(), rng.choice(["turtle", "turtle", "n3"]), _doc_triples(rng, absns, counter, rng.randint(1, 4))])
+            ops.append(["serdoc", mgr(), rng.choice(DOC_FORMATS), _doc_triples(rng, absns, counter, rng.randint(1, 4))])
     case = {"cfg": cfg, "bn": bn, "bn1": bn1, "vp": vp, "vn": vn, "ops": ops}
     if cfg == "foreign":
         case.update(_foreign_fields(rng))
@@ -261,7 +370,7 @@ def steps(case):
     out = [["minit", 0, case["bn"]]]
     made1 = False
     for op in case["ops"]:
-        if op[0] not in ("sbind", "expand", "split") and op[1] == 1 and not made1:
+        if op[0] not in _STATELESS and op[1] == 1 and not made1:
             made1 = True
             out.append(["minit", 1, case["bn1"]])
         out.append(op)
@@ -303,7 +412,80 @@ def doc_order(cfg, triples, k):
     return [[str(a), str(b), str(c), "l" if isinstance(c, Literal) else "u"] for a, b, c in g.triples((None, None, None))]
 
 
-_PREFIX_LINE = re.compile(r"^\s*@prefix\s+([^\s:]*):\s*<([^>]*)>\s*\.\s*$")
+def doc_order_canon(triples):
+    """longturtle with canon=True re-sorts the graph through scratch graphs (LongTurtleSerializer.canonize:
+    N-Triples lines sorted, parsed into a fresh Graph, de-skolemised into another); the serializer then walks
+    that last graph.  Same calls on the same triples in the same process = the same set order."""
+    g = Graph(store=Memory())
+    for s_, p_, o_, kd in triples:
+        g.add((URIRef(s_), URIRef(p_), _term(o_, kd)))
+    lines = g.serialize(format="application/n-triples").split("\n")
+    lines.sort()
+    g2 = Graph()
+    g2.parse(data="\n".join(lines), format="application/n-triples", skolemize=True)
+    g3 = g2.de_skolemize()
+    return [[str(a), str(b), str(c), "l" if isinstance(c, Literal) else "u"] for a, b, c in g3.triples((None, None, None))]
+
+
+def xml_order(store_kind, triples, k):
+    """(set of predicates in its iteration order, predicate of every statement in the order written) as
+    XMLSerializer meets them: `set(store.predicates())`, then subjects() / predicate_objects(subject) — read
+    off a scratch graph fed the same way in the same process (hash seed)"""
+    g = Graph(store=SimpleMemory() if store_kind == "simple" else Memory(), identifier=doc_ctx(k))
+    for s_, p_, o_, kd in triples:
+        g.add((URIRef(s_), URIRef(p_), _term(o_, kd)))
+    preds = [str(p_) for p_ in set(g.predicates())]
+    stmts, seen = [], set()
+    for s_ in g.subjects():
+        if s_ not in seen:
+            seen.add(s_)
+            stmts += [str(p_) for p_, _o in g.predicate_objects(s_)]
+    return preds, stmts
+
+
+_XMLNS_ATTR = re.compile(r"""\sxmlns(?::([^\s=]+))?=(?:"([^"]*)"|'([^']*)')""")
+
+
+def xml_prefix_table(text):
+    head = text[: text.index(">\n", text.index("<rdf:RDF")) + 1] if "<rdf:RDF" in text else ""
+    return [(m.group(1) or "", m.group(2) if m.group(2) is not None else m.group(3)) for m in _XMLNS_ATTR.finditer(head)]
+
+
+def build_trig_dataset(ctxs, nm0=None, nm1=None):
+    """the Dataset written by a sertrig op: a fresh Memory store (so that the order of its contexts and triples
+    depends on this op alone), named graphs created through the dataset (they share its manager), then the
+    triples context by context"""
+    ds = Dataset(store=Memory())
+    if nm0 is not None:
+        ds.namespace_manager = nm0
+        ds.default_context.namespace_manager = nm1
+    quads = set()
+    for kd, iri, triples in ctxs:
+        tgt = ds.default_context if kd == "d" else ds.graph(URIRef(iri))
+        for s_, p_, o_, k2 in triples:
+            t = (URIRef(s_), URIRef(p_), _term(o_, k2))
+            tgt.add(t)
+            quads.add(t + ("" if kd == "d" else iri,))
+    return ds, quads
+
+
+def trig_order(ctxs):
+    """[(manager index, [(iri, generate)…])…]: the contexts in the order TrigSerializer meets them (the store's
+    contexts, then the non-empty default graph once more), each with its name and the nodes of its triples"""
+    ds, _q = build_trig_dataset(ctxs)
+    seq = list(ds.contexts()) + ([ds.default_context] if len(ds.default_context) else [])
+    out = []
+    for c in seq:
+        if len(c) == 0:
+            continue
+        qs = [(str(c.identifier), False)] if isinstance(c.identifier, URIRef) else []
+        for a, b, o in c.triples((None, None, None)):
+            qs += [(str(a), False), (str(b), True)] + ([(str(o), False)] if isinstance(o, URIRef) else [])
+        out.append((1 if c.identifier == DATASET_DEFAULT_GRAPH_ID else 0, qs))
+    return out
+
+
+_PREFIX_LINE = re.compile(r"^\s*(?:@prefix|PREFIX)\s+([^\s:]*):\s*<([^>]*)>\s*\.?\s*$")
 
 
 def doc_prefix_table(text):
@@ -311,7 +493,9 @@ def doc_prefix_table(text):
 
 
 def user_prefixes(case):
-    ps = set(case["vp"]) | DEFAULT_PREFIXES | {""}
+    # prefixes the history itself supplies (a vocabulary entry that is only looked up, e.g. `ns2`, is not one: if the
+    # code invents that very name, which namespace gets it depends on the iteration order of a set of predicates)
+    ps = DEFAULT_PREFIXES | {""}
     for op in case["ops"]:
         if op[0] == "bind":
             ps.add(op[2] or "")
@@ -331,15 +515,15 @@ def canon(line, user):
     out, L, P, N = parts
     lp = [x.split(">", 1) for x in L[2:].split(" ")] if len(L) > 2 else []
     gen = {p: "G[" + n + "]" for p, n in lp if p not in user}
-    if not gen and not out.startswith(("qn ", "s ")):
-        return line
     if out.startswith("doc "):
         dd = [x.split(">", 1) for x in out[4:].split(" ")] if len(out) > 4 else []
         out = "doc " + " ".join(sorted(gen.get(p, p) + ">" + n for p, n in dd))
     rn = lambda p: gen.get(p, p)
     L2 = sorted(rn(p) + ">" + n for p, n in lp)
     pp = [x.split(">", 1) for x in P[2:].split(" ")] if len(P) > 2 else []
-    P2 = sorted(rn(p) + ">" + n for p, n in pp)
+    # a vocabulary prefix the history never supplied (e.g. `ns2`) is an invented name when bound (renamed) and says
+    # nothing when unbound (which of ns1/ns2 is the free one depends on the order in which names were invented)
+    P2 = sorted(rn(p) + ">" + n for p, n in pp if p in user or p in gen)
     nn = [x.rsplit(">", 1) for x in N[2:].split(" ")] if len(N) > 2 else []
     N2 = sorted(n + ">" + rn(p) for n, p in nn)
     if out.startswith("qn "):
@@ -414,24 +598,67 @@ class Impl:
             tmp.add(t)
         self.doc_problems = []
         try:
-            text = tmp.serialize(format=fmt)
-            table = doc_prefix_table(text)
-            ps = [p for p, _n in table]
-            if len(set(ps)) != len(ps):
-                self.doc_problems.append("docprefix: a prefix is declared twice in the %s output: %r" % (fmt, sorted(table)))
-            try:
-                back = set(Graph(bind_namespaces="none").parse(data=text, format=fmt))
-                if back != set(ts):
-                    self.doc_problems.append(
-                        "docroundtrip: the %s output does not read back as the graph; missing %r, unexpected %r, "
-                        "prefix table %r" % (fmt, sorted(set(ts) - back)[:2], sorted(back - set(ts))[:2], sorted(table)))
-            except Exception as e:  # noqa: BLE001
-                self.doc_problems.append("docroundtrip: the %s output cannot be parsed: %s" % (fmt, str(e)[:120]))
-            return "doc " + " ".join(sorted(p + ">" + n for p, n in table)), None
+            if fmt == "longturtle-canon":
+                text = tmp.serialize(format="longturtle", canon=True)
+            else:
+                text = tmp.serialize(format=fmt)
+            return self.check_doc(text, fmt, set(ts)), None
         finally:
             for t in ts:
                 tmp.remove(t)
             nm.reset()
+
+    def serxml(self, op):
+        _k, m, triples = op
+        nm = self.g[m].namespace_manager
+        if doc_store_kind(self.case, m) == "simple":
+            tmp = self.g[m]
+        else:
+            st = self.own if (self.cfg == "foreign" and m == 0) else self.store
+            tmp = Graph(store=st, identifier=doc_ctx(self.k), namespace_manager=nm)
+        ts = [(URIRef(s_), URIRef(p_), _term(o_, kd)) for s_, p_, o_, kd in triples]
+        for t in ts:
+            tmp.add(t)
+        self.doc_problems = []
+        try:
+            return self.check_doc(tmp.serialize(format="xml"), "xml", set(ts)), None
+        finally:
+            for t in ts:
+                tmp.remove(t)
+
+    def sertrig(self, op):
+        nm0, nm1 = self.g[0].namespace_manager, self.g[1].namespace_manager
+        ds2, quads = build_trig_dataset(op[2], nm0, nm1)
+        self.doc_problems = []
+        try:
+            return self.check_doc(ds2.serialize(format="trig"), "trig", quads, quads=True), None
+        finally:
+            nm0.reset()
+            nm1.reset()
+
+    def check_doc(self, text, fmt, ts, quads=False):
+        """oracle on the OUTPUT of a serialisation (independent of Lean): no prefix declared twice, the text reads
+        back as exactly the triples (quads) written; returns the observation line (the @prefix table)"""
+        table = xml_prefix_table(text) if fmt == "xml" else doc_prefix_table(text)
+        ps = [p for p, _n in table]
+        if len(set(ps)) != len(ps):
+            self.doc_problems.append("docprefix: a prefix is declared twice in the %s output: %r" % (fmt, sorted(table)))
+        try:
+            if fmt == "trig":
+                rd = Dataset()
+                rd.parse(data=text, format="trig")
+                cid = lambda c: c.identifier if isinstance(c, Graph) else c
+                back = {(a, b, c) + (("" if cid(g_) in (None, DATASET_DEFAULT_GRAPH_ID) else str(cid(g_)),) if quads else ())
+                        for a, b, c, g_ in rd.quads((None, None, None, None))}
+            else:
+                back = set(Graph(bind_namespaces="none").parse(data=text, format="turtle" if fmt.startswith("longturtle") else fmt))
+            if back != set(ts):
+                self.doc_problems.append(
+                    "docroundtrip: the %s output does not read back as the graph; missing %r, unexpected %r, "
+                    "prefix table %r" % (fmt, sorted(set(ts) - back)[:2], sorted(back - set(ts))[:2], sorted(table)))
+        except Exception as e:  # noqa: BLE001
+            self.doc_problems.append("docroundtrip: the %s output cannot be parsed: %s" % (fmt, str(e)[:120]))
+        return "doc " + " ".join(sorted(p + ">" + n for p, n in table))
 
     def graph(self, m):
         if self.cfg == "dataset" and m == 0 and self.k % 2 == 1:
@@ -471,9 +698,30 @@ class Impl:
             return "s " + str(r), str(r)
         if kind == "serdoc":
             return self.serdoc(op)
+        if kind == "sertrig":
+            return self.sertrig(op)
+        if kind == "serxml":
+            return self.serxml(op)
+        if kind == "badinit":
+            if alt:
+                Graph(store=self.store, bind_namespaces=op[1]).namespace_manager
+            else:
+                NamespaceManager(Graph(store=self.store), bind_namespaces=op[1])
+            return "ok", None
         if kind == "split":
             r = _N.split_uri(op[1], _N.NAME_START_CATEGORIES) if op[2] else _N.split_uri(op[1])
             return "split %s>%s" % (str(r[0]), r[1]), (str(r[0]), r[1])
+        if kind == "ncname":
+            return "nc %d" % _N.is_ncname(op[1]), None
+        if kind == "catrange":
+            rle = []
+            for c in range(op[1], op[2]):
+                k = unicodedata.category(chr(c))
+                if rle and rle[-1][0] == k:
+                    rle[-1][1] += 1
+                else:
+                    rle.append([k, 1])
+            return "cats " + " ".join("%s*%d" % (k, n) for k, n in rle), None
         g = self.graph(op[1])
         nm = g.namespace_manager
         if kind == "bind":
@@ -609,15 +857,16 @@ def run_impl(case):
         except Exception as e:  # noqa: BLE001
             out, res = _err(e), None
             stats["err_" + out[4:]] = stats.get("err_" + out[4:], 0) + 1
-            if kind in ("bind", "sbind", "minit", "parse", "parsexml", "reset", "ser", "serdoc") and not (
+            if kind in ("bind", "sbind", "minit", "parse", "parsexml", "reset", "ser", "serdoc", "sertrig") and not (
                     kind == "bind" and op[2] is not None and " " in op[2]):
                 viol.append(f"raises-{type(e).__name__}: step {k} {kind} raised {type(e).__name__}: {str(e)[:80]}")
         if kind not in ("bind", "sbind", "minit", "parse", "parsexml") and len(list(im.store.namespaces())) > before:
             stats["generated"] = stats.get("generated", 0) + 1
-        if kind == "serdoc":
+        if kind in ("serdoc", "sertrig", "serxml"):
             viol += ["%s (step %d)" % (x, k) for x in im.doc_problems]
             im.doc_problems = []
-            stats["serdoc_" + op[2]] = stats.get("serdoc_" + op[2], 0) + 1
+            fm = op[2] if kind == "serdoc" else ("trig-dataset" if kind == "sertrig" else "xml")
+            stats["serdoc_" + fm] = stats.get("serdoc_" + fm, 0) + 1
         _check_bij(im, case, k, viol)
         if kind == "split" and res is not None:
             stats["split_ok"] = stats.get("split_ok", 0) + 1
@@ -663,17 +912,36 @@ def model_lines(case):
             lines.append(f"expand {_e(op[1])}")
         elif k == "split":
             lines.append(f"split {_b(op[2])} {_e(op[1])}")
+        elif k == "ncname":
+            lines.append(f"ncname {_e(op[1])}")
+        elif k == "catrange":
+            lines.append(f"catrange {op[1]} {op[2]}")
         elif k == "reset":
             lines.append(f"reset {op[1]}")
         elif k in ("parse", "parsexml"):
             lines.append(f"{k} {op[1]} " + " ".join(_e(p) + " " + _e(n) for p, n in op[2]))
         elif k == "ser":
             lines.append(f"ser {op[1]} {_e(op[2])} {_e(op[3])} {_e(op[4])}")
+        elif k == "badinit":
+            lines.append("minit 0 " + ("cc" if op[1] == "cc" else "bogus"))
+        elif k == "serxml":
+            preds, stmts = xml_order(doc_store_kind(case, op[1]), op[2], idx + 1)
+            lines.append(f"serxml {op[1]} " + " ".join(_e(u) for u in preds) + " / " + " ".join(_e(u) for u in stmts))
+        elif k == "sertrig":
+            # fb = 0: the written dataset lives on a store of its own, which holds no bindings
+            lines.append("sertrig 0 " + " / ".join(
+                " ".join([str(m)] + [x for u, g in qs for x in (_e(u), _b(g))]) for m, qs in trig_order(op[2])))
         elif k == "serdoc":
+            kind_ = doc_store_kind(case, op[1])
             qs = []
-            for s_, p_, o_, kd in doc_order(doc_store_kind(case, op[1]), op[3], idx + 1):
+            if op[2] == "trig" and kind_ != "simple":
+                qs += [_e(str(doc_ctx(idx + 1))), "0"]  # TrigSerializer: getQName(context.identifier, False) first
+            order = doc_order_canon(op[3]) if op[2] == "longturtle-canon" else doc_order(kind_, op[3], idx + 1)
+            for s_, p_, o_, kd in order:
                 qs += [_e(s_), "0", _e(p_), "1"] + ([_e(o_), "0"] if kd == "u" else [])
-            fb = "0" if (case["cfg"] == "foreign" and op[1] == 0) else "1"  # getQName's fallback reads the graph's own store
+            # getQName's fallback reads the own store of the graph being written: a borrowed manager's graph and
+            # the scratch graph of longturtle's canon=True hold no bindings
+            fb = "0" if ((case["cfg"] == "foreign" and op[1] == 0) or op[2] == "longturtle-canon") else "1"
             lines.append(f"serdoc {op[1]} {fb} " + " ".join(qs))
         else:
             raise AssertionError(k)
@@ -694,11 +962,22 @@ def shrink(case):
     if case["cfg"] != "memory":
         yield {**case, "cfg": "memory", "bn1": "none"}
     for i, op in enumerate(ops):
-        if op[0] not in ("sbind", "expand", "split") and op[1] == 1:
+        if op[0] not in _STATELESS and op[1] == 1:
             yield {**case, "ops": ops[:i] + [[op[0], 0] + op[2:]] + ops[i + 1:]}
         if op[0] == "serdoc" and len(op[3]) > 1:
             for j in range(len(op[3])):
                 yield {**case, "ops": ops[:i] + [[op[0], op[1], op[2], op[3][:j] + op[3][j + 1:]]] + ops[i + 1:]}
+        if op[0] == "serxml" and len(op[2]) > 1:
+            for j in range(len(op[2])):
+                yield {**case, "ops": ops[:i] + [[op[0], op[1], op[2][:j] + op[2][j + 1:]]] + ops[i + 1:]}
+        if op[0] == "sertrig":
+            for j in range(len(op[2])):
+                if len(op[2]) > 1:
+                    yield {**case, "ops": ops[:i] + [[op[0], op[1], op[2][:j] + op[2][j + 1:]]] + ops[i + 1:]}
+                kd, iri, ts = op[2][j]
+                for t in range(len(ts)):
+                    if len(ts) > 1:
+                        yield {**case, "ops": ops[:i] + [[op[0], op[1], op[2][:j] + [[kd, iri, ts[:t] + ts[t + 1:]]] + op[2][j + 1:]]] + ops[i + 1:]}
         if op[0] in ("parse", "parsexml") and len(op[2]) > 1:
             for j in range(len(op[2])):
                 if op[0] == "parsexml" and op[2][j][0] == "rdf":
